@@ -91,7 +91,10 @@ func (t *TimeTZ) MarshalJSON() ([]byte, error) {
 //   - 15:04:05.999999999Z07:00
 //   - 15:04:05.999999999Z07
 func (t *TimeTZ) UnmarshalJSON(data []byte) error {
-	str := data[1 : len(data)-1] // Unquote
+	str, err := unquoteJSON(data)
+	if err != nil {
+		return err
+	}
 
 	// Figure out which TZ format we need.
 	var format string
@@ -101,9 +104,9 @@ func (t *TimeTZ) UnmarshalJSON(data []byte) error {
 	)
 	size := len(str)
 	switch {
-	case str[size-secPlace] == '-' || str[size-secPlace] == '+':
+	case size >= secPlace && (str[size-secPlace] == '-' || str[size-secPlace] == '+'):
 		format = timeTZSecondFormat
-	case str[size-minPlace] == '-' || str[size-minPlace] == '+':
+	case size >= minPlace && (str[size-minPlace] == '-' || str[size-minPlace] == '+'):
 		format = timeTZMinuteFormat
 	default:
 		format = timeTZHourFormat
